@@ -11,7 +11,14 @@ from core import fkey, fbits, fbits_raw
 
 MODULE = "DfolsVerif.Properties.C17"
 BUILD_TARGETS = ["DfolsVerif.Driver.ModelDrv"]   # what lean/Main.lean imports
+def pre_build(ctx):
+    import gen_kernels
+    ctx.cov["translated_model_decisions"] = gen_kernels.regenerate_model(ctx)
+
+
 THEOREMS = [
+    "Dfols.C17.gen_changePoint_decision", "Dfols.C17.gen_addPoint_decision", "Dfols.C17.gen_savePoint_decision",
+    "Dfols.C17.gen_getFinal_decision",
     "Dfols.C17.C17_labels_counts_means",
     "Dfols.C17.C17_mean_is_arithmetic_mean",
     "Dfols.C17.C17_obj_matches",
@@ -23,6 +30,7 @@ THEOREMS = [
     "Dfols.C17.C17_old_argmin_nan",
 ]
 TRUSTED_EXTRA = [
+    "AST-to-Lean translator harness/gen_kernels.py (translate_model): the tests of change_point / add_new_point / save_point / get_final_results as Bool functions over Val",
     "modelled, not verified: coordinates and linear algebra of Model (points are opaque ids; residual means are real doubles computed elementwise)",
     "C17_mean_is_arithmetic_mean is an exact-arithmetic statement (field of characteristic 0); the float recurrence is compared bit-for-bit instead",
 ]
